@@ -40,6 +40,15 @@ def scenario(rng, k, tier):
     po = mkpol(SSRC_SPECIFIC, other)       # an explicit stream that is never addressed
     L += [ps.line(1), pr.line(2), po.line(3), "create 1 1 3", "create 2 2 3"]
     idx = {ssrc: rng.choice([0, 65500, 30000]), other: 5}
+    late_join = (k % 4 == 1) and not wildcard
+    if late_join:
+        # both ends are told the ROC before any packet and are RE-KEYED before the first one arrives; the first sequence number
+        # lies in the far half of the sequence space: the imposed ROC stays pending across the update and is applied to it
+        r0 = rng.choice([1, 5, 0x1234])
+        L += [f"setroc 1 {H(ssrc)} {H(r0)}", f"setroc 2 {H(ssrc)} {H(r0)}"]
+        pj = mkpol(SSRC_SPECIFIC, ssrc)
+        L += [pj.line(6), "stream_update 1 6" if k % 8 == 1 else "update 1 6", "stream_update 2 6" if k % 8 == 1 else "update 2 6"]
+        idx[ssrc] = (r0 << 16) | rng.choice([40000, 65000, 33000])
     def traffic(n, s=ssrc, tag="t"):
         for _ in range(n):
             pkt = rtp_packet(s, idx[s] & 0xffff, payload=bytes([idx[s] & 0xff] * 12))
